@@ -43,6 +43,9 @@ ASSUMPTIONS = [
     'creation stream: the shadow directory of a created instance (ExperimentShadowDirectory.temporaryShadow) is placed under '
     'the scratch directory and the clock of experiment.model.data/storage is fixed, so that every faulted re-run starts from '
     'the same pre-state and writes the same texts; the copy of the package into the instance directory is not a state file',
+    'overlapping updates: the two calls run in two threads that are serialised at the intercepted file operations (a thread '
+    'keeps the turn from one operation to its next request), so an interleaving is a merge of whole operations; the path-level '
+    'model of the file system is exact only while the two calls use different temporary paths - the recorded opens are checked for it',
     'file-level codec model: characters are code points < 256 (larger ones in values other than error-description are '
     'checked on the real code only); the escaping of error-description is modelled and proved over all code points (Fs.Wide)',
 ]
@@ -1161,6 +1164,9 @@ def run(ctx):
                 'latin-1 and wider code points, fault = process death or I/O error at operation k after j characters; '
                 'plus creation cases (package, entry point in {experimentFromPackage, experimentFromInstance with a subset of '
                 'the state files removed}, fault) - the first write of the state files; '
+                'plus overlap cases (two real Status.update calls - two Status objects or one - or two Experiment._store_* calls on the same '
+                'file, a schedule from {B inside A after operation i, A inside B, alternation, random merge, sequential}, a fault at '
+                'every operation of the interleaving); '
                 'plus loader cases (printed, truncated, hand-made status files). non-trivial = a previous version of the '
                 'file exists and the fault is after the first operation; distinct by (updater, update, fault)')
     rng = ctx.rng
